@@ -39,26 +39,53 @@ def triage(r):
         return "voter sets in Ballot.__eq__: condense / profile equality work on weightless ballots without voter sets (not observable in C11's clauses)"
     if f == "cleaning.py" and "ballots[0]" in b:
         return "equivalent: merge_ballots is only given ballots with one and the same ranking"
+    if f == "utils.py" and b in ("1", "2") and r["line"] in (48,):
+        return "equivalent: ballots_by_first_cand is only reached after the STV validation has refused every tied position"
+    if f == "utils.py" and "first_cand[0]" in b:
+        return "equivalent: first_cand is the list of a single-candidate position"
+    if f == "boosted_random_dictator.py" and "u <=" in b:
+        return "equivalent: u is a continuous uniform draw, `<=` and `<` differ on a set of measure zero"
+    if f == "ballot_generator.py" and "number_to_sample" in b:
+        return "equivalent: with equality the number of tied fill-up candidates is 0 and the branch changes nothing"
+    if f == "ballot_generator.py" and "greater_cand_support" in b:
+        return "`_calc_prob` is a helper formula used by the repository's tests only; the samplers draw from `_BT_pdf` (which C15 compares entry by entry)"
+    if f == "ballot_generator.py" and b == "m - 1":
+        return "equivalent: the extra loop iterations multiply by `val ** 0`"
+    if f == "ballot_generator.py" and "self.point[cand]" in b:
+        return "equivalent for the law: the product runs over *all* candidates of a complete ranking and is the same for every ranking (BallotSimplex.from_point is uniform whatever the point -- side observation in notes/C16_report.md)"
+    if f == "ballot_generator.py" and k == "const":
+        return "bloc-count guard of CambridgeSampler / default dimension of the spatial models: no property"
     if f == "pref_interval.py":
         return "PreferenceInterval.from_dirichlet / __eq__: outside C15's statement (intervals are passed explicitly)"
     return tri.get("%s:%s:%s:%s" % (r["file"], r["line"], r["kind"], r["before"]), "(not triaged)")
 
 
-by = collections.Counter(r["exit"] for r in recs)
-per = collections.defaultdict(collections.Counter)
+# one mutant may have been run against several mapped checks: it is reported if any of them reports it
+groups = collections.OrderedDict()
 for r in recs:
-    per[r["file"]][r["exit"]] += 1
-lines = ["AST mutation sweep (`tools/mutation_sweep.py`, operators: comparison flip, +/- and */ swap, and/or swap, [-1]<->[0], constant+1, `not` removal,",
-         "`reverse=` inversion; 5 sites per target drawn with seed 0; each mutant run against the quick tier of the check its function is anchored in):",
-         "**%d mutants: %d reported (exit 1), %d survived (exit 0), %d machinery failures (exit 2/124).**" % (len(recs), by[1], by[0], by[2] + by[124]), "",
+    groups.setdefault((r["file"], r["line"], r["kind"], r["before"], r["after"]), []).append(r)
+mut = []
+for k, rs in groups.items():
+    killed = [r for r in rs if r["exit"] == 1]
+    mach = [r for r in rs if r["exit"] not in (0, 1)]
+    mut.append({"file": k[0], "line": k[1], "kind": k[2], "before": k[3], "after": k[4], "checks": [r["check"] for r in rs],
+                "status": "reported" if killed else ("machinery" if mach else "survived"), "by": [r["check"] for r in killed],
+                "sigs": sorted({s for r in killed for s in r["signatures"]})[:3]})
+by = collections.Counter(m["status"] for m in mut)
+per = collections.defaultdict(collections.Counter)
+for m in mut:
+    per[m["file"]][m["status"]] += 1
+lines = ["AST mutation sweep (`tools/mutation_sweep.py`; operators: comparison flip, +/- and */ swap, and/or swap, [-1]<->[0], constant+1, `not` removal,",
+         "`reverse=` inversion; 5 sites per target drawn with seed 0; each mutant is run against the quick tier of the checks its function is anchored in until one",
+         "reports it): **%d mutants: %d reported, %d survived, %d machinery failures.**" % (len(mut), by["reported"], by["survived"], by["machinery"]), "",
          "| file | reported | survived | machinery |", "|---|---|---|---|"]
 for f, c in sorted(per.items()):
-    lines.append("| %s | %d | %d | %d |" % (f, c[1], c[0], c[2] + c[124]))
-lines += ["", "Survivors and their triage:", "", "| mutant | check | triage |", "|---|---|---|"]
-for r in recs:
-    if r["exit"] != 1:
-        key = "%s:%s:%s:%s" % (r["file"], r["line"], r["kind"], r["before"])
-        lines.append("| %s:%d `%s` → `%s` | %s (exit %s) | %s |" % (os.path.basename(r["file"]), r["line"], r["before"].replace("|", "\\|")[:60], r["after"].replace("|", "\\|")[:60],
-                                                               r["check"], r["exit"], triage(r)))
+    lines.append("| %s | %d | %d | %d |" % (f, c["reported"], c["survived"], c["machinery"]))
+lines += ["", "Survivors and their triage (an equivalent mutant cannot be reported; a gap would be listed as such):", "", "| mutant | checks run | triage |", "|---|---|---|"]
+for m in mut:
+    if m["status"] != "reported":
+        r = {"file": m["file"], "line": m["line"], "kind": m["kind"], "before": m["before"], "after": m["after"]}
+        lines.append("| %s:%d `%s` → `%s` | %s (%s) | %s |" % (os.path.basename(m["file"]), m["line"], m["before"].replace("|", "\\|")[:60], m["after"].replace("|", "\\|")[:60],
+                                                           ", ".join(m["checks"]), m["status"], triage(r)))
 open(os.path.join(V, "notes", "sweep_table.md"), "w").write("\n".join(lines) + "\n")
-print(len(recs), dict(by))
+print(len(mut), dict(by))
